@@ -245,6 +245,30 @@ let run_script (h : header) (moves : (int * move) list) : string list * string l
       (viols_spec h.sp c)) cfgs)) in
   (List.rev !out, viols)
 
+(* is every move of the script enabled (conformant environment) in the model?  one "1"/"0" per line.
+   Used by the shrinker: a replay must stay inside what the theorems quantify over. *)
+let cmd_conf () =
+  try
+    while true do
+      let line = input_line stdin in
+      if String.trim line <> "" then begin
+        let (hs, ms) = split_bar line in
+        let h = parse_header hs in
+        let moves = List.map parse_move (tokens ms) in
+        let nsk = nat_of_int h.nsk in
+        let cfgs = Array.init (max 1 h.subs) (fun _ -> cfg0_spec h.sp) in
+        let ok = ref true in
+        List.iter (fun (sub, m) ->
+          if sub < Array.length cfgs then begin
+            let c = cfgs.(sub) in
+            if not (enabled_spec h.sp h.pull nsk c m) then ok := false;
+            cfgs.(sub) <- step_spec h.sp h.pull nsk c m
+          end else ok := false) moves;
+        print_endline (if !ok then "1" else "0")
+      end
+    done
+  with End_of_file -> ()
+
 let cmd_run () =
   try
     while true do
@@ -786,6 +810,116 @@ let cmd_gentree seed count pullonly =
     Printf.printf "op=tree tree=%s env=%s subs=1 | %s\n" t (if pullonly then "pull" else "std") (Buffer.contents moves)
   done
 
+
+(* ---------- linear pipelines as nets of component models (Chain.v / NetDriver.v) ---------- *)
+
+(* "tk:2(fl:2:0(mp:1:1(fi:1,2,3)))" -> [from_iter; map; filter; take] (source first); None if not linear *)
+let parse_chain (t : string) : spec list option =
+  let n = String.length t in
+  let pos = ref 0 in
+  let peek () = if !pos < n then t.[!pos] else '\000' in
+  let ident () =
+    let st = !pos in
+    while (let c = peek () in c >= 'a' && c <= 'z') do incr pos done;
+    String.sub t st (!pos - st) in
+  let args () =
+    let out = ref [] in
+    while peek () = ':' do
+      incr pos;
+      let st = !pos in
+      while (let c = peek () in (c >= '0' && c <= '9') || c = ',' || c = '-') do incr pos done;
+      out := String.sub t st (!pos - st) :: !out
+    done;
+    List.rev !out in
+  let rec expr () : spec list option =
+    let id = ident () in
+    let a = args () in
+    let num k = try int_of_string (List.nth a k) with _ -> 0 in
+    let child () =
+      if peek () = '(' then begin
+        incr pos;
+        let r = expr () in
+        if peek () = ')' then (incr pos; r) else None
+      end else None in
+    let over st = match child () with Some l -> Some (l @ [st]) | None -> None in
+    match id with
+    | "fi" -> Some [SpFromIter (List.map nat_of_int (parse_list (try List.nth a 0 with _ -> "-")), None)]
+    | "mp" -> over (SpMap (nat_of_int (num 0), nat_of_int (num 1)))
+    | "fl" -> over (SpFilter (nat_of_int (max 1 (num 0)), nat_of_int (num 1)))
+    | "tk" -> over (SpTake (nat_of_int (num 0)))
+    | "sk" -> over (SpSkip (nat_of_int (num 0)))
+    | "sc" -> over (SpScan (nat_of_int (num 0), nat_of_int (num 1)))
+    | _ -> None in
+  match expr () with
+  | Some l when !pos = n -> Some l
+  | _ -> None
+
+let chain_fuel = nat_of_int 20000
+
+(* model of a linear tree script: the sink's view of the net run *)
+let cmd_chainrun () =
+  try
+    while true do
+      let line = input_line stdin in
+      if String.trim line <> "" then begin
+        let (hs, ms) = split_bar line in
+        let kv = List.map (fun t ->
+          match String.index_opt t '=' with
+          | Some i -> (String.sub t 0 i, String.sub t (i + 1) (String.length t - i - 1))
+          | None -> (t, "")) (tokens hs) in
+        match parse_chain (get kv "tree" "fi:-") with
+        | None -> print_endline "NOTLINEAR"
+        | Some sps ->
+            let net = ref (chain_net sps) in
+            List.iter (fun t ->
+              let (_, m) = parse_move t in
+              let (n', _) = chain_step chain_fuel !net m in
+              net := n') (tokens ms);
+            print_string (String.concat " " (List.map str_event (chain_trace !net)));
+            print_string " || ";
+            print_endline (String.concat " " (List.map str_viol (chain_viols !net)))
+      end
+    done
+  with End_of_file -> ()
+
+let gen_chain_tree () : string =
+  let l = rand 5 in
+  let leaf = Printf.sprintf "fi:%s" (if l = 0 then "-" else String.concat "," (List.init l (fun _ -> string_of_int (rand 10)))) in
+  let k = rand 5 in
+  let rec wrap k inner =
+    if k = 0 then inner else
+    let st = match rand 5 with
+      | 0 -> Printf.sprintf "mp:%d:%d" (1 + rand 2) (rand 3)
+      | 1 -> let m = 1 + rand 3 in Printf.sprintf "fl:%d:%d" m (rand m)
+      | 2 -> Printf.sprintf "tk:%d" (1 + rand 3)
+      | 3 -> Printf.sprintf "sk:%d" (rand 3)
+      | _ -> Printf.sprintf "sc:%d:%d" (rand 2) (rand 3) in
+    wrap (k - 1) (Printf.sprintf "%s(%s)" st inner) in
+  wrap k leaf
+
+(* random linear pipelines with sink scripts every move of which is enabled in the net model *)
+let cmd_genchain seed count =
+  rng_state := Int64.of_int seed;
+  for _ = 1 to count do
+    let t = gen_chain_tree () in
+    match parse_chain t with
+    | None -> ()
+    | Some sps ->
+        let net = ref (chain_net sps) in
+        let moves = ref [] in
+        let n = 3 + rand 16 in
+        for k = 1 to n do
+          let cands = [| "S0"; "P0"; "P0"; "P0"; "r"; "r"; "T0"; "E0/100" |] in
+          let tok = if k = 1 then "S0" else cands.(rand (Array.length cands)) in
+          let tok = if tok = "T0" && rand 3 <> 0 then "P0" else tok in
+          let tok = if tok = "E0/100" && rand 4 <> 0 then "r" else tok in
+          let (_, m) = parse_move tok in
+          let (n', ok) = chain_step chain_fuel !net m in
+          if ok then (net := n'; moves := tok :: !moves)
+        done;
+        Printf.printf "op=tree tree=%s env=std subs=1 chain=1 | %s\n" t (String.concat " " (List.rev !moves))
+  done
+
 let () =
   match Array.to_list Sys.argv with
   | _ :: "gentree" :: seed :: count :: rest -> cmd_gentree (int_of_string seed) (int_of_string count) (rest = ["pull"])
@@ -796,6 +930,9 @@ let () =
   | _ :: "pipe" :: _ -> cmd_pipe ()
   | _ :: "genpipe" :: seed :: count :: _ -> cmd_genpipe (int_of_string seed) (int_of_string count)
   | _ :: "run" :: _ -> cmd_run ()
+  | _ :: "conf" :: _ -> cmd_conf ()
+  | _ :: "chainrun" :: _ -> cmd_chainrun ()
+  | _ :: "genchain" :: seed :: count :: _ -> cmd_genchain (int_of_string seed) (int_of_string count)
   | _ :: "mon" :: _ -> cmd_mon ()
   | _ :: "gen" :: seed :: count :: ops -> cmd_gen (int_of_string seed) (int_of_string count) ops
   | _ :: "enum" :: depth :: rest -> cmd_enum (int_of_string depth) (String.concat " " rest)
